@@ -5,6 +5,7 @@ from common import *
 LEVEL_NOTES = {}
 
 SUITE_MODULES = {
+    'multi': 'run_multi',
     'wrapper': 'run_wrapper',
     'cache': 'run_cache',
     'clone': 'run_clone',
